@@ -74,10 +74,14 @@ func RunStream(c StreamCase) (res Result) {
 		case "store":
 			kept = append(kept, gens[op.G-1].Store())
 		case "restore":
-			g2, err := random.RestoreChacha20PRG(kept[op.K-1])
+			buf := append([]byte(nil), kept[op.K-1]...) // the caller's buffer, reused after the call
+			g2, err := random.RestoreChacha20PRG(buf)
 			if err != nil {
 				add("Restore", err.Error())
 				return
+			}
+			for j := range buf {
+				buf[j] = 0xEE
 			}
 			gens = append(gens, g2)
 		case "read":
@@ -112,10 +116,14 @@ func RunStream(c StreamCase) (res Result) {
 			if len(st) != 52 || !bytes.Equal(st[:32], key) || !bytes.Equal(st[32:44], nonce) {
 				add("StoreLayout", fmt.Sprintf("op %d: Store() = %x", i, st))
 			}
-			g2, err := random.RestoreChacha20PRG(st)
+			buf := append([]byte(nil), st...)
+			g2, err := random.RestoreChacha20PRG(buf)
 			if err != nil {
 				add("Restore", err.Error())
 				return
+			}
+			for j := range buf {
+				buf[j] = 0xEE
 			}
 			gens = append(gens, g2)
 		}
@@ -599,6 +607,26 @@ func SamplingArgs(seed int64) (viol []Violation) {
 	}
 	if p, err := g.Permutation(0); err != nil || len(p) != 0 {
 		add("Permutation(0)")
+	}
+	// the whole grid of small / zero / negative sizes: an error exactly for a negative or inconsistent size
+	for _, n := range []int{-5, -1, 0, 1, 2, 3, 17} {
+		_, err := g.Permutation(n)
+		if (err != nil) != (n < 0) {
+			add(fmt.Sprintf("Permutation(%d): err=%v", n, err))
+		}
+		if err := g.Shuffle(n, nop); (err != nil) != (n < 0) {
+			add(fmt.Sprintf("Shuffle(%d): err=%v", n, err))
+		}
+		for _, m := range []int{-2, -1, 0, 1, 2, 4, 17, 18} {
+			bad := n < 0 || m < 0 || m > n
+			sp, err := g.SubPermutation(n, m)
+			if (err != nil) != bad || (!bad && len(sp) != m) {
+				add(fmt.Sprintf("SubPermutation(%d,%d): %v, err=%v; an error is expected: %v", n, m, sp, err, bad))
+			}
+			if err := g.Samples(n, m, nop); (err != nil) != bad {
+				add(fmt.Sprintf("Samples(%d,%d): err=%v; an error is expected: %v", n, m, err, bad))
+			}
+		}
 	}
 	if p, err := g.SubPermutation(0, 0); err != nil || len(p) != 0 {
 		add("SubPermutation(0,0)")
